@@ -982,8 +982,9 @@ func validatorSiblingsRule(c *Ctx, r *Report) {
 							chased = true
 						}
 					}
-					// validateNonEmptyWithAllowNil looks at slices, maps and strings, which it is handed as they are
-					if !chased && name != "validateNonEmptyWithAllowNil" {
+					// (validateNonEmptyWithAllowNil was exempted here until round 9 — "it is handed slices, maps and strings as
+					// they are" — which hid that a pre-filled *string holding "" passed `required`; repaired, exemption gone)
+					if !chased {
 						bad = "Kind() of the value as handed over at " + c.Pos(x.Pos())
 					}
 				}
@@ -1003,7 +1004,7 @@ func validatorSiblingsRule(c *Ctx, r *Report) {
 // as it stands (tryRecursiveValidate). No way round the loop from "not skipped" back to the loop head avoids all of
 // them: a `continue` for some shape of configuration leaves that field's validate tag and Validate() unasked.
 func everyFieldHandledRule(c *Ctx, r *Report) {
-	r.Rule("R04j", "in reifyStruct's field loop every iteration that does not skip its field reaches reifyGetField, reifyInto, reifyMergeValue or tryRecursiveValidate before the next iteration", 1)
+	r.Rule("R04j", "in reifyStruct's field loop every iteration that does not skip its field reaches reifyGetField, reifyInto, reifyMergeValue or tryRecursiveValidate, and uses the field's validate tag, before the next iteration", 2)
 	rs := c.Func("", "reifyStruct")
 	af := c.Func("", "accessField")
 	handlers := map[string]bool{"reifyGetField": true, "reifyInto": true, "reifyMergeValue": true, "tryRecursiveValidate": true}
@@ -1047,6 +1048,56 @@ func everyFieldHandledRule(c *Ctx, r *Report) {
 				}
 			}
 		}
+		// the field's validate tag is used on every such way: as an argument (runValidators, tryRecursiveValidate)
+		// or as the validators of the fieldOptions handed on — validateStruct, the sibling that only validates,
+		// applies the tag to every field it does not skip, inlined or not
+		fiT := c.Named("", "fieldInfo")
+		tagIdx := c.FieldIndex(fiT, "validatorTags")
+		uses := map[*ssa.BasicBlock]bool{}
+		var mark func(v ssa.Value)
+		mark = func(v ssa.Value) {
+			if v.Referrers() == nil {
+				return
+			}
+			for _, ref := range *v.Referrers() {
+				switch x := ref.(type) {
+				case *ssa.DebugRef:
+				case *ssa.Field:
+					if x.Field == tagIdx {
+						for _, u := range *x.Referrers() {
+							if _, dbg := u.(*ssa.DebugRef); !dbg {
+								uses[u.Block()] = true
+							}
+						}
+					}
+				case *ssa.Store:
+					// spilled to a local: follow the loads of its field
+					if al, isAl := x.Addr.(*ssa.Alloc); isAl && x.Val == v {
+						for _, r2 := range *al.Referrers() {
+							if fa, isFA := r2.(*ssa.FieldAddr); isFA && fa.Field == tagIdx {
+								for _, r3 := range *fa.Referrers() {
+									if ld, isLd := r3.(*ssa.UnOp); isLd {
+										for _, u := range *ld.Referrers() {
+											if _, dbg := u.(*ssa.DebugRef); !dbg {
+												uses[u.Block()] = true
+											}
+										}
+									}
+								}
+							}
+						}
+					}
+				}
+			}
+		}
+		for _, ref := range *call.Referrers() {
+			if ex, ok := ref.(*ssa.Extract); ok && ex.Index == 0 {
+				mark(ex)
+			}
+		}
+		untagged := !uses[start] && (start == hdr || reachableAvoiding(start, hdr, uses))
+		r.Check(!untagged, "R04j", c.FnName(rs), "every field's validate tag used", c.Pos(call.Pos()), "no way back to the loop head around a use of fInfo.validatorTags",
+			"an iteration of reifyStruct's field loop can go on to the next field without using the field's validate tag (validateStruct, which only validates, applies it to every field): for that kind of field — an inlined map or struct — `validate:\"nonzero\"` or `required` is never asked, and Unpack succeeds with a value the tag rejects")
 		round := !avoid[start] && (start == hdr || reachableAvoiding(start, hdr, avoid))
 		r.Check(!round, "R04j", c.FnName(rs), "every field handled", c.Pos(call.Pos()), "no way back to the loop head around the unpack / validate routines",
 			"an iteration of reifyStruct's field loop can go on to the next field without handing this one to reifyGetField, reifyInto, reifyMergeValue or tryRecursiveValidate: for that shape of configuration the field's validate tag and Validate() are never asked, and Unpack succeeds with a value they reject")
